@@ -110,29 +110,11 @@ def r05a(run, rule="R05a"):
                   for k, v in sorted(bad.items())[:2]),
               necessity="two instances share one mutable default: changing one changes the other and the class default")
     run.floor(rule, "input shapes for which get_default hands out a default", vals, 20)
-    g = run.repo.func("utype.utils.functional", "copy_value")
-    ga = analysis(g)
-    rec = [c for n, c in ga.all_calls() if call_attr(c) == "copy_value"]
-    kinds = set()
-    for n, c in ga.all_calls():
-        if call_attr(c) == "copy_value":
-            for a, p in ga.facts.atoms_at(n):
-                t = unparse(a)
-                if p and ("multi(" in t or "dict" in t):
-                    kinds.add("multi" if "multi(" in t else "dict")
-    run.check(rule, g, "copy_value copies nested sequences and mappings element by element",
-              len(rec) >= 2 and kinds == {"multi", "dict"}, construct="copy_value is shallow",
-              message=f"copy_value recurses into {sorted(kinds)} only (expected sequences/sets and dicts)",
-              necessity="a nested mutable default ([[...]] or {'k': [...]}) stays shared between instances")
-    # the identity return is only for non-containers
-    for n in ga.cfg.nodes:
-        if n.kind == "stmt" and isinstance(n.ast, ast.Return) and isinstance(n.ast.value, ast.Name) \
-                and n.ast.value.id == g.params[0]:
-            fs = facts(ga, n)
-            ok = any("multi(" in t and not p for t, p in fs) and any("dict" in t and not p for t, p in fs)
-            run.check(rule, g, "copy_value returns its argument only when it is neither a sequence nor a dict", ok,
-                      construct="copy_value identity return", message="copy_value returns containers uncopied",
-                      necessity="mutable defaults are shared", node=n.ast)
+    # copy_value itself: decided as a table over default shapes (round 8; replaces the shape rules "recurses under a multi()
+    # test and under a dict test" / "returns its argument only when neither": a guard-clause layout with a cached multi()
+    # answer is the same function)
+    from . import helper_table as _ht
+    _ht.r_copy(run, rid=rule)
 
 
 def r05b(run):
